@@ -56,17 +56,38 @@ type Exec struct {
 	ctr   counter
 	ref   []entry // sorted by rank, one entry per equivalence class
 	its   [8]*liveIter
-	fail  *failure
-	nline int    // lines executed so far
-	nops  int    // of these, ops (everything but `new` and `shape`)
-	sum   uint64 // running digest of all outputs (replay self-check)
-	last  *Shape // hook dump after the previous op
-	fresh bool   // last is up to date
+	fails []*failure // the first failure of each property (kind prefix c01 / c02 / c03), in order of occurrence
+	nline int        // lines executed so far
+	nops  int        // of these, ops (everything but `new` and `shape`)
+	sum   uint64     // running digest of all outputs (replay self-check)
+	last  *Shape     // hook dump after the previous op
+	fresh bool       // last is up to date
 	st    stats
+	// full sweeps (Iterate + Range(u,u) + RangeReverse(u,u) + Len/First/Last against the reference)
+	sweeps, sweepsBig int // sweepsBig: of these, on more than bigFillKeys keys
+	// only: judge just this property (used while shrinking one failure: the hook dump after every
+	// op, which only the C03 monitor needs, dominates the cost of a re-execution)
+	only        string
+	lastSweepOp int // nops at the last one (-1: none)
 }
 
+// bigFillKeys: an interior node first splits with its overflowing child among its first 8 children
+// after a descending fill of 136 keys; fills beyond that are counted separately.
+const bigFillKeys = 136
+
 func newExec(mon bool) *Exec {
-	return &Exec{mon: mon, st: stats{ops: map[string]int{}, bk: map[string]int{}}}
+	return &Exec{mon: mon, lastSweepOp: -1, st: stats{ops: map[string]int{}, bk: map[string]int{}}}
+}
+
+// runOnly re-executes the lines with the monitors of one property.
+func runOnly(lines []string, only string) *Exec {
+	e := newExec(true)
+	e.only = only
+	for _, l := range lines {
+		e.Step(l)
+	}
+	e.Finish()
+	return e
 }
 
 func runLines(lines []string, mon bool) *Exec {
@@ -78,7 +99,41 @@ func runLines(lines []string, mon bool) *Exec {
 	return e
 }
 
-func (e *Exec) checking() bool { return e.mon && e.fail == nil }
+// prop is the property a failure kind belongs to: the kind's prefix (c01, c02, c03).
+func prop(kind string) string {
+	if i := strings.IndexByte(kind, '-'); i > 0 {
+		return kind[:i]
+	}
+	return kind
+}
+
+// failOf returns the recorded failure of one property. The three properties are judged
+// independently: a C03 (shape) failure must not silence the C01 / C02 monitors on the same case,
+// otherwise a check that filters on its own kinds sees no failing input at all.
+func (e *Exec) failOf(pr string) *failure {
+	for _, f := range e.fails {
+		if prop(f.kind) == pr {
+			return f
+		}
+	}
+	return nil
+}
+
+func (e *Exec) hasKind(kind string) *failure {
+	for _, f := range e.fails {
+		if f.kind == kind {
+			return f
+		}
+	}
+	return nil
+}
+
+func (e *Exec) checking(pr string) bool {
+	return e.mon && (e.only == "" || e.only == pr) && e.failOf(pr) == nil
+}
+
+// wantShape: the hook dump after every op serves the C03 monitor (and the event statistics).
+func (e *Exec) wantShape() bool { return e.only == "" || e.only == "c03" }
 
 func (e *Exec) params(op string, kv ...interface{}) map[string]interface{} {
 	p := map[string]interface{}{"op": op, "variant": e.v.Name()}
@@ -89,11 +144,11 @@ func (e *Exec) params(op string, kv ...interface{}) map[string]interface{} {
 }
 
 func (e *Exec) failf(kind string, p map[string]interface{}, format string, a ...interface{}) {
-	if !e.checking() {
+	if !e.checking(prop(kind)) {
 		return
 	}
 	at := e.nline
-	e.fail = &failure{kind: kind, params: p, at: at, what: fmt.Sprintf("line %d: ", at) + fmt.Sprintf(format, a...)}
+	e.fails = append(e.fails, &failure{kind: kind, params: p, at: at, what: fmt.Sprintf("line %d: ", at) + fmt.Sprintf(format, a...)})
 }
 
 // call runs one API call with a fresh comparator count.
@@ -248,7 +303,7 @@ func (e *Exec) apply(f []string) (string, *Shape) {
 		default:
 			out = strconv.Itoa(got)
 		}
-		if e.checking() {
+		if e.mon { // failf keeps the first failure per property
 			i, found := e.find(e.v.rank(k))
 			switch {
 			case p:
@@ -273,10 +328,8 @@ func (e *Exec) apply(f []string) (string, *Shape) {
 		out := strconv.Itoa(n)
 		if p {
 			out = "panic"
-			e.panicFail("c01", op, spun)
-		} else if n != len(e.ref) {
-			e.failf("c01-wrong-len", e.params(op), "Len() = %d, the ideal collection holds %d distinct keys", n, len(e.ref))
 		}
+		e.judgeLen(n, p, spun)
 		e.after(false, nil, 0, false, nil)
 		return out, nil
 
@@ -300,24 +353,7 @@ func (e *Exec) apply(f []string) (string, *Shape) {
 		default:
 			out = fmt.Sprintf("%d %d", k, v)
 		}
-		if e.checking() {
-			switch {
-			case p:
-				e.panicFail("c01", op, spun)
-			case len(e.ref) == 0:
-				if k != 0 || v != 0 {
-					e.failf("c01-wrong-"+op, e.params(op, "empty", true), "%s on the empty collection returned (%d,%d), want the zero values", op, k, v)
-				}
-			default:
-				w := e.ref[0]
-				if op == "last" {
-					w = e.ref[len(e.ref)-1]
-				}
-				if k == 0 || e.v.rank(k) != e.v.rank(w.k) || v != w.v {
-					e.failf("c01-wrong-"+op, e.params(op), "%s returned (%d,%d), the extreme entry of the ideal collection is (%d,%d)", op, k, v, w.k, w.v)
-				}
-			}
-		}
+		e.judgeExtreme(op, k, v, p, spun)
 		e.after(false, nil, 0, false, nil)
 		return out, nil
 
@@ -337,7 +373,7 @@ func (e *Exec) apply(f []string) (string, *Shape) {
 		if !p {
 			out = joinKV(ks, vs, e.v.Set)
 		}
-		if e.checking() {
+		if e.mon {
 			e.checkRange(op, rev, lo, hi, ks, vs, p, spun)
 		}
 		e.after(false, nil, 0, false, nil)
@@ -487,7 +523,7 @@ func (e *Exec) expect(rev bool, lo, hi Bnd) []entry {
 }
 
 // after runs once per executed op: C03 on a fresh hook dump, event classification, periodic
-// Iterate drain. For very large trees (> 2048 keys) the O(n) work is done every n/256-th op only.
+// full sweep (checkFull). For very large trees (> 2048 keys) the O(n) work is done every n/256-th op only.
 func (e *Exec) after(mut bool, before *Shape, r int, del bool, parked []parkedAt) {
 	if !e.mon {
 		if mut {
@@ -502,26 +538,32 @@ func (e *Exec) after(mut bool, before *Shape, r int, del bool, parked []parkedAt
 		}
 		return
 	}
-	var a *Shape
-	if p, _ := vlib.Try(func() { a = e.c.Shape() }); p || a == nil {
-		e.failf("c03-truncated-walk", e.params("shape"), "the hook walk panicked")
-		e.fresh = false
-		return
-	}
-	e.checkC03(a)
-	if mut && before != nil {
-		e.countEvents(before, a, r, del, parked)
-	}
-	e.last, e.fresh = a, true
-	if lv := a.levels(); lv > e.st.levelsMax {
-		e.st.levelsMax = lv
+	if !e.wantShape() {
+		if mut {
+			e.fresh = false
+		}
+	} else {
+		var a *Shape
+		if p, _ := vlib.Try(func() { a = e.c.Shape() }); p || a == nil {
+			e.failf("c03-truncated-walk", e.params("shape"), "the hook walk panicked")
+			e.fresh = false
+			return
+		}
+		e.checkC03(a)
+		if mut && before != nil {
+			e.countEvents(before, a, r, del, parked)
+		}
+		e.last, e.fresh = a, true
+		if lv := a.levels(); lv > e.st.levelsMax {
+			e.st.levelsMax = lv
+		}
 	}
 	every := 16
 	if n > 2048 {
 		every = 16 * (n / 256)
 	}
 	if e.nops > 0 && e.nops%every == 0 {
-		e.checkIterate()
+		e.checkFull()
 	}
 }
 
@@ -529,14 +571,14 @@ func (e *Exec) Finish() {
 	if !e.mon || e.c == nil {
 		return
 	}
-	if !e.fresh {
+	if !e.fresh && e.wantShape() {
 		var a *Shape
 		if p, _ := vlib.Try(func() { a = e.c.Shape() }); !p && a != nil {
 			e.checkC03(a)
 			e.last, e.fresh = a, true
 		}
 	}
-	e.checkIterate()
+	e.checkFull()
 }
 
 func (e *Exec) countEvents(b, a *Shape, r int, del bool, parked []parkedAt) {
